@@ -20,7 +20,7 @@ BIN = os.path.join(WORK, "bin")
 DRIVER = os.path.join(LEAN, ".lake/build/bin/dhcp-driver")
 GO = "go1.26.8"
 GOENV = dict(os.environ, GOFLAGS="-mod=mod", GOPROXY="off", GOSUMDB="off", GOTOOLCHAIN="local",
-             CGO_ENABLED="0")
+             CGO_ENABLED="0", VERIF_ROOT=VERIF)
 ALLOWED_AXIOMS = {"propext", "Classical.choice", "Quot.sound"}
 FORBIDDEN = re.compile(r"\bsorry\b|\badmit\b|^axiom |native_decide|bv_decide|implemented_by|\bunsafe |maxHeartbeats 0")
 
@@ -67,19 +67,20 @@ def build_extract():
     return None
 
 
-def build_harness():
-    """Always rebuilt: it links the working tree of REPO (default /repo)."""
-    tgt = os.path.join(BIN, "harness")
+def build_harness(race=False):
+    """Always rebuilt: it links the working tree of REPO (default /repo).
+    race=True: a second binary built with the Go race detector (needs cgo)."""
+    tgt = os.path.join(BIN, "harness-race" if race else "harness")
     src = os.path.join(VERIF, "harness")
     shutil.copyfile(os.path.join(REPO, "go.sum"), os.path.join(src, "go.sum"))
-    argv = [GO, "build", "-tags", "verif", "-o", tgt]
+    argv = [GO, "build", "-tags", "verif", "-o", tgt] + (["-race"] if race else [])
     if REPO != "/repo":
         # scratch copy of the library (self-tests against seeded changes): alternate go.mod
         mf = os.path.join(WORK, "harness.go.mod")
         open(mf, "w").write(open(os.path.join(src, "go.mod")).read().replace("=> /repo", "=> " + REPO))
         shutil.copyfile(os.path.join(REPO, "go.sum"), os.path.join(WORK, "harness.go.sum"))
         argv += ["-modfile", mf]
-    rc, out = sh(argv + ["./cmd/harness"], cwd=src, env=GOENV, timeout=900)
+    rc, out = sh(argv + ["./cmd/harness"], cwd=src, env=dict(GOENV, CGO_ENABLED="1") if race else GOENV, timeout=900)
     return None if rc == 0 else out
 
 
@@ -204,14 +205,15 @@ def load_known():
     return known, fixed
 
 
-def run_parallel(jobs, maxpar=14):
+def run_parallel(jobs, maxpar=14, env=None):
     """jobs: list of (key, argv). Returns {key: (rc, out)}."""
+    env = env or GOENV
     res, running = {}, []
     jobs = list(jobs)
     while jobs or running:
         while jobs and len(running) < maxpar:
             k, argv = jobs.pop(0)
-            running.append((k, subprocess.Popen(argv, stdout=subprocess.PIPE, stderr=subprocess.STDOUT, text=True, env=GOENV)))
+            running.append((k, subprocess.Popen(argv, stdout=subprocess.PIPE, stderr=subprocess.STDOUT, text=True, env=env)))
         k, p = running.pop(0)
         try:
             out, _ = p.communicate(timeout=3000)
@@ -297,23 +299,35 @@ def check(pid, tier, replay=None):
             shutil.copyfile(DRIVER, dbin); os.chmod(dbin, 0o755)
 
         all_ths = prop_ths + fact_ths
-        discharged = []
+        discharged, unchecked = [], []
         for t in all_ths:
             if t in failed:
                 continue
             ax = axioms.get(t)
             if ax is None:
-                failed.append(t) if t not in failed else None
+                # its module did not build because of another theorem's error
+                unchecked.append(t)
                 continue
             badax = [a for a in ax if a not in ALLOWED_AXIOMS]
             if badax:
                 failed.append(t); notes.append(f"{t} uses axioms {badax}")
                 continue
             discharged.append(t)
+        if unchecked and not failed:
+            failed.append("theorems could not be audited: " + ", ".join(unchecked[:5]))
         if forb:
             failed.append("forbidden construct in Lean sources"); notes += forb[:10]
         for t in failed:
             broken.append(dict(kind="proof-obligation", name=t))
+        if failed and cfg.get("fact_evidence"):
+            # what the extractor saw (e.g. the def chain of every VIEW): goes into the replay file
+            try:
+                ev = json.load(open(os.path.join(WORK, "facts.json")))
+                for k in cfg["fact_evidence"].split("."):
+                    ev = ev[k]
+                notes += [cfg["fact_evidence"] + ": " + json.dumps(e) for e in (ev or [])[:20]]
+            except Exception as e:
+                notes.append(f"fact evidence unavailable: {e}")
 
         # ---- streams and oracles
         jobs = []
@@ -377,6 +391,39 @@ def check(pid, tier, replay=None):
             oracle_stats[name] = o
             failures += o.get("failures") or []
 
+        # ---- thorough: the same oracles under the Go race detector (cfg["race_oracles"])
+        if thorough and not replay and cfg.get("race_oracles"):
+            with Lock("build.lock"):
+                e = build_harness(race=True)
+                rbin = os.path.join(workdir, "harness-race")
+                if not e:
+                    shutil.copyfile(os.path.join(BIN, "harness-race"), rbin); os.chmod(rbin, 0o755)
+            if e:
+                broken.append(dict(kind="oracle", name="race-build", detail="cannot build the -race harness: " + e[-500:]))
+            else:
+                rlog = os.path.join(workdir, "race")
+                jobs = [(("race", name), [rbin, "oracle", "-name", name, "-n", str(n), "-seed", str(seed + 1), "-seeds", seeds_file,
+                                          "-out", os.path.join(workdir, f"r-{name}.json")])
+                        for (name, n) in cfg["race_oracles"]]
+                rres = run_parallel(jobs, env=dict(GOENV, GORACE=f"log_path={rlog} halt_on_error=0 exitcode=0"))
+                for (kind, name), (rc, out) in rres.items():
+                    p = os.path.join(workdir, f"r-{name}.json")
+                    if not os.path.exists(p):
+                        broken.append(dict(kind="oracle", name=name + "(-race)", detail="oracle crashed: " + out[-500:]))
+                        continue
+                    o = json.load(open(p))
+                    oracle_stats[name + "(-race)"] = o
+                    failures += o.get("failures") or []
+                reports = []
+                for f in sorted(os.listdir(workdir)):
+                    if f.startswith("race."):
+                        reports += [r for r in open(os.path.join(workdir, f)).read().split("==================") if "DATA RACE" in r]
+                for r in reports[:3]:
+                    failures.append({"oracle": "race-detector", "class": "data-race",
+                                     "what": "Go race detector report while driving the real code",
+                                     "input": " / ".join(l.strip() for l in r.strip().splitlines()[:14])})
+                notes.append(f"race detector: {len(reports)} reports")
+
         # ---- verdict
         known, fixed = load_known()
         known_here = [k for k in known if k["property"] == pid]
@@ -421,10 +468,10 @@ def check(pid, tier, replay=None):
                 missing_part=cfg["missing"],
                 evaluations=evaluations, distinct_nontrivial=distinct, rule=cfg["rule"],
                 samples=samples[:8],
-                streams={k: {kk: v[kk] for kk in ("evaluations", "distinct_nontrivial", "tags", "out_kinds", "line_size_hist",
-                                                   "n_disagreements", "corpus_cases", "enumerated", "exhaustive_part", "wall_s")}
+                streams={k: {kk: v.get(kk) for kk in ("evaluations", "distinct_nontrivial", "tags", "out_kinds", "line_size_hist",
+                                                       "n_disagreements", "corpus_cases", "enumerated", "exhaustive_part", "wall_s", "extra")}
                          for k, v in stream_stats.items()},
-                oracles={k: {kk: v.get(kk) for kk in ("evaluations", "distinct_nontrivial", "tags", "n_failures")}
+                oracles={k: {kk: v.get(kk) for kk in ("evaluations", "distinct_nontrivial", "tags", "n_failures", "samples")}
                          for k, v in oracle_stats.items()},
                 exhaustive=False,
                 known_findings=[k["cls"] for k in known_here], known_findings_hit=listed_classes,
